@@ -10,6 +10,8 @@ def listAddAppendsToReceiver : Bool := true
 def listAddClips : Bool := true
 def freezeWraps : String := "receiver"
 def sortedArg : String := "copy"
+def sortedReverse : String := "flip-comparator"
+def sortedSortFns : List String := ["sort.Slice"]
 def reversedArg : String := "copy"
 def constantFoldsLists : Bool := true
 def listSlice : String := "reslice"
